@@ -72,7 +72,7 @@ TEXT = {
 
 # additions of the third session (appended to the level text / the technique of the property)
 EXTRA = {
- "C01": (" Third session: the port of magnet_cuboid_Bfield = the Coulombian six-face surface-charge integral (+ J inside) for every observer off the six face planes, all octants (iterated FTC); the regenerated concolic traces of the real Dipole / Sphere / Cuboid kernels are proved equal to the model at the real carrier.",
+ "C01": (" Third session: the port of magnet_cuboid_Bfield = the Coulombian six-face surface-charge integral (+ J inside) for every observer off the six face planes, all octants (iterated FTC); the regenerated concolic traces of the real Dipole / Sphere / Cuboid kernels are proved equal to the model at the real carrier; Circle off its axis: the kernel value = the Biot-Savart loop integral (times kappa = literal*4pi*1e-7, |kappa-1| < 1e-16) plus prefactor*(cel iteration value - cel integral), an exact identity with the truncation error of Bulirsch's iteration explicit (its convergence to the integral is the one named, unproved hypothesis CelComputesIntegral).",
          " + kernels regenerated by concolic tracing of the numpy source (Gen/KernTrace) with trace = model theorems + symbolic correspondence (formulas compared as rational functions over F_p)"),
  "C02": (" Third session: the whole ported CylinderSegment wrapper (cylseg_consistent); trace = model theorems for the Sphere and Dipole wrappers.",
          " + regenerated kernel traces and CylinderSegment translation (sync theorems) + symbolic correspondence"),
